@@ -7,4 +7,4 @@ CONSTANTS
   AdvKinds <- AllAdv
   MaxAdversarial = 1
   StrictVerify = TRUE
-INVARIANTS Emit TypeOK
+INVARIANTS Emit TypeOK ClaimAccepted HashMatches RightOperatorsPunished GateImpliesThreshold HonestAccepted
